@@ -158,17 +158,18 @@ struct Model
 enum ev_kind { E_SUB, E_IND, E_NOTIFY, E_TRANSMIT, E_CONFIRM, E_BADCONFIRM };
 struct Ev { ev_kind e; int k, bits; };
 
+// the events of the small alphabet come first, so that an event number means the same in both tiers ( replay files )
 std::vector< Ev > make_events( bool small )
 {
     std::vector< Ev > v;
     for ( int k = 0; k != N; ++k ) v.push_back( Ev{ E_SUB, k, 3 } );
     for ( int k = 0; k != N; ++k ) v.push_back( Ev{ E_SUB, k, 0 } );
-    if ( !small ) for ( int k = 0; k != N; ++k ) { v.push_back( Ev{ E_SUB, k, 2 } ); v.push_back( Ev{ E_SUB, k, 1 } ); }
     for ( int k = 0; k != N; ++k ) v.push_back( Ev{ E_IND, k, 0 } );
     for ( int k = 0; k != N; ++k ) v.push_back( Ev{ E_NOTIFY, k, 0 } );
     v.push_back( Ev{ E_TRANSMIT, 0, 0 } );
     v.push_back( Ev{ E_CONFIRM, 0, 0 } );
     v.push_back( Ev{ E_BADCONFIRM, 0, 0 } );
+    if ( !small ) for ( int k = 0; k != N; ++k ) { v.push_back( Ev{ E_SUB, k, 2 } ); v.push_back( Ev{ E_SUB, k, 1 } ); }
     return v;
 }
 std::string describe_ev( const Ev& e )
@@ -487,7 +488,7 @@ int main( int argc, char** argv )
     mc::Args a = mc::parse_args( argc, argv );
     mc::Report rep; rep.property = "C11"; rep.unit = a.opt.count( "unit" ) ? a.opt[ "unit" ] : "C11_indication_flow";
     static World w;
-    w.events = make_events( WORLD_LL || ( SMALL_Q && !a.thorough() ) );
+    w.events = make_events( WORLD_LL || ( SMALL_Q && !a.thorough() && a.replay.empty() ) );   // replay: the full alphabet
     mc::BfsOptions o; o.with_drain = true; o.max_depth = a.thorough() ? DEPTH_T : DEPTH_Q; o.max_states = 6000000;
     mc::Bfs< World > bfs( w, rep, a, o );
     if ( !a.replay.empty() ) return bfs.replay_file( mc::read_replay( a.replay ) );
